@@ -68,6 +68,17 @@ BOUNDARY = [
     (['[ref a]: /u\\\\*x "&copy &copy; \\&copy;"', '', '[ref a] ![Ref  A][]'],
      '<p><a href="/u%5C*x" title="&amp;copy © &amp;copy;">ref a</a> <img src="/u%5C*x" alt="Ref  A" title="&amp;copy © &amp;copy;" /></p>'),
     (['```&copy', 'x', '```', '', '~~~ \\&amp;', '~~~'], '<pre><code class="language-&amp;copy">x\n</code></pre>\n<pre><code class="language-&amp;amp;"></code></pre>'),
+    # 5.1: a '>' behind four or more columns of indentation is no quote marker
+    (['> a', '    > b', '', '> c', '>', '    > code'], '<blockquote>\n<p>a\n&gt; b</p>\n</blockquote>\n<blockquote>\n<p>c</p>\n</blockquote>\n<pre><code>&gt; code\n</code></pre>'),
+    # 4.5: a closing fence carries no info string; 4.6 condition 1: case-insensitive start, any of the four end tags ends it
+    (['```', 'code', '```aaa', 'more', '```'], '<pre><code>code\n```aaa\nmore\n</code></pre>'),
+    (['~~~', 'a', '~~~ ~', 'b', '~~~~  '], '<pre><code>a\n~~~ ~\nb\n</code></pre>'),
+    (['<PRE>', '', '*foo*', '</PRE>', '', '*bar*'], '<PRE>\n\n*foo*\n</PRE>\n<p><em>bar</em></p>'),
+    (['<pre>', 'x', '', '</script> y </pre>', '', '*foo*'], '<pre>\nx\n\n</script> y </pre>\n<p><em>foo</em></p>'),
+    # 4.2: '# # #' has the content '#'; 6.1: the padding rule of code spans is about U+0020 only; 5.2: ASCII digits only
+    (['# # #', '', '### ###', '', '## # ##', '', '# ## #'], '<h1>#</h1>\n<h3></h3>\n<h2>#</h2>\n<h1>##</h1>'),
+    (['` \xa0 ` and ` \t ` and `  `'], '<p><code>\xa0</code> and <code>\t</code> and <code>  </code></p>'),
+    (['\u0661. foo', '', '\uff11) bar', '', 'text', '\u0661. baz'], '<p>\u0661. foo</p>\n<p>\uff11) bar</p>\n<p>text\n\u0661. baz</p>'),
     # GFM tables: empty cells, short rows
     (['|a||c|', '|-|-|-|', '|1||3|', '|x|'],
      '<table>\n<thead>\n<tr>\n<th align="left">a</th>\n<th align="left"></th>\n<th align="left">c</th>\n</tr>\n</thead>\n<tbody>\n<tr>\n<td align="left">1</td>\n'
@@ -234,7 +245,7 @@ def plan(tier):
     return {'shards': 16, 'budget_s': 900}
 
 
-SIZES = {'quick': dict(docs=12000, variants=3), 'thorough': dict(docs=70000, variants=12)}
+SIZES = {'quick': dict(docs=12000, variants=3), 'thorough': dict(docs=600000, variants=12)}
 
 
 def run(ctx):
